@@ -15,6 +15,12 @@
 //     rules gave at inspection time, one-line justification, kind inspected|finding). An
 //     entry whose fingerprint or shape no longer matches is void (e.g. the sort after an
 //     inspected collect loop was removed: same loop text, other shape).
+//   - the AMBIENT-INPUT INVENTORY: uses of the clock (time.Now/Since/Until), of a process-global
+//     random source (math/rand, crypto/rand, uuid.New*), of the environment and host identity
+//     (os.Getenv/Environ/Hostname/Getpid..., os/user), of the local time zone (time.Local,
+//     time.LoadLocation, and every location-dependent method of time.Time — Format, String,
+//     Date, Clock, Year..., Weekday, Zone, Marshal* — whose receiver is not syntactically
+//     x.UTC() or x.In(time.UTC)). Each must be in the "ambient" allow-list with its reason.
 //   - the FILE-LITERAL INVENTORY: every composite literal of type codegen.File, whether
 //     it sets `SkipExist: true`, and whether its function is statically reachable from
 //     generator.Example / from the gen generators (Service, Transport, OpenAPI).
@@ -108,6 +114,50 @@ type Ambient struct {
 	Line    int    `json:"line"`
 	Allowed bool   `json:"allowed"`
 	Why     string `json:"why,omitempty"`
+}
+
+// localZoneMethods: methods of time.Time whose result depends on the location the value
+// carries. time.Unix / time.Date(.., time.Local) / time.Now give values in the process's
+// local zone (TZ, /etc/localtime), so calling one of these on anything but `x.UTC()` or
+// `x.In(time.UTC)` lets the machine's time zone into the output.
+var localZoneMethods = map[string]bool{"Format": true, "AppendFormat": true, "String": true, "GoString": true, "Date": true, "Clock": true,
+	"Year": true, "Month": true, "Day": true, "Hour": true, "Minute": true, "Weekday": true, "YearDay": true, "ISOWeek": true,
+	"Zone": true, "ZoneBounds": true, "Location": true, "Local": true, "MarshalJSON": true, "MarshalText": true, "Truncate": false, "IsDST": true}
+
+func isTimeTime(t types.Type) bool {
+	if t == nil {
+		return false
+	}
+	if p, ok := t.(*types.Pointer); ok {
+		t = p.Elem()
+	}
+	n, ok := t.(*types.Named)
+	return ok && n.Obj().Name() == "Time" && n.Obj().Pkg() != nil && n.Obj().Pkg().Path() == "time"
+}
+
+// pinnedToUTC: the expression is syntactically x.UTC() or x.In(time.UTC).
+func pinnedToUTC(info *types.Info, e ast.Expr) bool {
+	call, ok := ast.Unparen(e).(*ast.CallExpr)
+	if !ok {
+		return false
+	}
+	sel, ok := call.Fun.(*ast.SelectorExpr)
+	if !ok || !isTimeTime(info.TypeOf(sel.X)) {
+		return false
+	}
+	if sel.Sel.Name == "UTC" && len(call.Args) == 0 {
+		return true
+	}
+	if sel.Sel.Name == "In" && len(call.Args) == 1 {
+		if a, ok := ast.Unparen(call.Args[0]).(*ast.SelectorExpr); ok && a.Sel.Name == "UTC" {
+			if pid, ok := a.X.(*ast.Ident); ok {
+				if pn, ok := info.Uses[pid].(*types.PkgName); ok && pn.Imported().Path() == "time" {
+					return true
+				}
+			}
+		}
+	}
+	return false
 }
 
 // ambientFuncs: clock, process-global random sources, environment, host identity.
@@ -1035,6 +1085,12 @@ func main() {
 					}
 					stack = append(stack, n)
 					switch x := n.(type) {
+					case *ast.CallExpr:
+						if sel, ok := x.Fun.(*ast.SelectorExpr); ok && localZoneMethods[sel.Sel.Name] && isTimeTime(p.TypesInfo.TypeOf(sel.X)) && !pinnedToUTC(p.TypesInfo, sel.X) {
+							an := fmt.Sprintf("%s:%s time.Time.%s in the local zone", rel, disp, sel.Sel.Name)
+							why, ok := ambientAllow[an]
+							ambients = append(ambients, Ambient{Name: an, File: relFile, Line: p.Fset.Position(x.Pos()).Line, Allowed: ok, Why: why})
+						}
 					case *ast.SelectorExpr:
 						if pid, ok := x.X.(*ast.Ident); ok {
 							if pn, ok := p.TypesInfo.Uses[pid].(*types.PkgName); ok && ambientFuncs[pn.Imported().Path()][x.Sel.Name] {
